@@ -86,10 +86,32 @@ def run(ck, ctx):
         pr = Pred(I)
         alt = ins["altDec"]
         masks = {g.vn(n.args[1]): n.args[1] for n in stores}
-        ck.ob("R20.2", "every update of the field is a store under one and the same mask", len(masks) == 1, res, func,
-              f"{len(masks)} distinct mask(s)")
-        mask = next(iter(masks.values()))
         want = ("and", pr.le(I.const(0), alt), pr.le(alt, I.const(10)))
+        complement_zeroed = False
+        if len(masks) == 2:
+            # a selection and its complement: the rows outside the range zeroed by a store of their own (x * 0 under ~m),
+            # the rows inside updated under m - one partition of the events, read like the single-mask form
+            (v1_, m1_), (v2_, m2_) = list(masks.items())
+            e12 = pr.equivalent(pr.formula(m1_), ("not", pr.formula(m2_)))
+            if e12 and e12[0]:
+                ew = pr.equivalent(pr.formula(m1_), want)
+                sel_, comp_ = (m1_, m2_) if (ew and ew[0]) else (m2_, m1_)
+
+                def zero_valued(v_):
+                    while v_.op == "Subscript":
+                        v_ = v_.args[0]
+                    if v_.op == "Const":
+                        return v_.attr == 0 and not isinstance(v_.attr, bool)
+                    ops_ = v_.args if (v_.op == "BinOp" and v_.attr == "Mult") else (
+                        v_.args[1:] if is_ext_call(v_, "numpy.multiply") else ())
+                    return any(o_.op == "Const" and not isinstance(o_.attr, bool) and o_.attr == 0 for o_ in ops_)
+                comp_stores = [n for n in stores if g.vn(n.args[1]) == g.vn(comp_)]
+                if comp_stores and all(zero_valued(n.args[2]) for n in comp_stores):
+                    complement_zeroed = True
+                    masks = {g.vn(sel_): sel_}
+        ck.ob("R20.2", "every update of the field is a store under one and the same mask", len(masks) == 1, res, func,
+              f"{len(masks)} distinct mask(s)" + (" (and zeroing stores under its complement)" if complement_zeroed else ""))
+        mask = next(iter(masks.values()))
         e = pr.equivalent(pr.formula(mask), want)
         ck.ob("R20.2", "the field is computed exactly for 0 <= altDec <= 10 km", bool(e and e[0]), mask, func,
               pr.show(pr.formula(mask))[:200])
@@ -105,8 +127,8 @@ def run(ck, ctx):
                     (x.op == "Call" and x.extra and x.extra.get("why") == "call-on-object") or
                     (x.fn is not None and x.fn.qualname.startswith("RadioEFieldParams.")) for x in walk([other[0]])):
                 ok_zero = True
-        ck.ob("R20.2", "outside the range the field is the product with a False mask (exact zero)", ok_zero, root, func,
-              g.show(root, 3))
+        ck.ob("R20.2", "outside the range the field is the product with a False mask (exact zero)",
+              ok_zero or complement_zeroed, root, func, g.show(root, 3))
         # distance evaluations of this run
         r2 = R.runs["EASRadio.__call__"][1]
         dcalls = [c for c in I.call_log if c[0].qualname == "distance_to_detector" and c[1] and
@@ -142,7 +164,21 @@ def run(ck, ctx):
         E = ins["showerEnergy"]
         opaque = {root.id, E.id, ref[0].id, det[0].id}
         seen_paths = {}
+        def selection_any(c_):
+            """c_ is `m.any()` / `np.any(m)` with m the selection mask: False means no event is selected at all"""
+            m_ = None
+            if c_.op == "MCall" and c_.attr[0] == "any" and len(c_.args) == 1:
+                m_ = c_.args[0]
+            elif is_ext_call(c_, "numpy.any") and len(c_.args) == 2:
+                m_ = c_.args[1]
+            if m_ is None:
+                return False
+            e_ = pr.equivalent(pr.formula(m_), pr.formula(mask))
+            return bool(e_ and e_[0])
+        empty_guards = {k for k, c_ in conds.items() if selection_any(c_)}
         for combo in itertools.product((True, False), repeat=len(conds)):
+            if any(k in empty_guards and not b_ for k, b_ in zip(conds, combo)):
+                continue        # no event selected on this path: nothing to say about "a selected event"
             P = PolyFacet(I, opaque_ids=opaque, gather_transparent=True)
             P.forward_loads = True
             P.assume = dict(zip(conds, combo))
